@@ -25,22 +25,26 @@ def _chain(job):
     start, steps, pattern, prefix = job[:4]
     flagsets = job[4] if len(job) > 4 else [[]]
     rng = random.Random(job[5] if len(job) > 5 else 0)
+    rx = job[6] if len(job) > 6 else r"^(.*[^0-9])?([0-9]+)()$"       # prefix, BUILD, what follows BUILD (a tag with its number)
+    suffix = job[7] if len(job) > 7 else ""
     evs = []
     b = start
     gen = False
-    for _ in range(steps):
-        flags = rng.choice(flagsets)
-        r = drive.cli(["test", prefix + b, pattern, "--date", "2021-01-01"] + flags)
+    for k in range(steps):
+        flags = flagsets[0] if (k == 0 and len(job) > 6) else rng.choice(flagsets)       # chains with a tag behind BUILD: the first step takes the job's first flag set
+        if "--tag-num" in flags and not suffix:
+            flags = []                      # --tag-num needs a non-final tag
+        r = drive.cli(["test", prefix + b + suffix, pattern, "--date", "2021-01-01"] + flags)
         if r.exit != 0:
             # refusal: only legitimate at the documented maximum
             evs.append((b, [0, 0], gen, "exit=%s %s %s" % (r.exit, r.exc, " ".join(flags))))
             break
         new = r.new_version()
-        m = re.match(r"^(.*[^0-9])?([0-9]+)$", new or "")
+        m = re.match(rx, new or "")
         if not m:
             evs.append((b, [0], gen, "no output"))
             break
-        prefix, n = m.group(1) or "", m.group(2)
+        prefix, n, suffix = m.group(1) or "", m.group(2), m.group(3)
         evs.append((b, glue.cp(n), gen, " ".join(flags)))
         b = n
         gen = True
@@ -97,6 +101,16 @@ def run(ctx):
         if "BLD" in pat:
             s = s.lstrip("0") or "7"           # BLD is the build number without padding: the same counter, the same growth
         jobs.append((s, steps, pat, pre, fl, ctx.seed * 1009 + i))
+    # BUILD followed by a tag and its number: whatever the flags do to TAG / NUM, every bump gives a new, greater BUILD
+    tagflags = [["--tag-num"], ["--tag", "final"], ["--tag", "rc"], ["--tag", "beta"], [], ["--tag-num", "--tag", "rc"], ["--tag", "alpha"]]
+    k = 0
+    for pat, pre, rx, sufs in (("vYYYY0M.BUILD[-TAG[NUM]]", "v202101.", r"^(v[0-9]{6}[.])([0-9]+)((?:-[a-z]+[0-9]*)?)$", ["-rc1", "-beta2", "-rc", ""]),
+                               ("YYYY.BUILD[PYTAGNUM]", "2021.", r"^([0-9]{4}[.])([0-9]+)((?:[a-z]+[0-9]+)?)$", ["rc1", "b2", "a0", ""])):
+        for suf in sufs:
+            for fi in range(len(tagflags)):
+                k += 1
+                s = ["1996", "0997", "7", "09994", "29990", "1001"][k % 6]
+                jobs.append((s, 4, pat, pre, tagflags[fi:] + tagflags[:fi], ctx.seed * 1009 + 500 + k, rx, suf))
     n_chain_ev = 0
     for job, evs in zip(jobs, drive.pmap(_chain, jobs, hooks=False)):
         for b, n, gen, note in evs:
